@@ -697,6 +697,22 @@ Definition run (fuel : nat) (data : val) (e : expr) : list Z * res val :=
   | (s1, r) => (log s1, r)
   end.
 
+(* Statement.evaluate(data, context) on a HOST context chain: `$` is written into the context the
+   host supplied (the only write to a pre-existing context), then evaluation and finalisation. *)
+Fixpoint set_data (h : list ctxrec) (c : nat) (n : str) (v : val) : list ctxrec :=
+  match h, c with
+  | [], _ => []
+  | r :: t, O => {| cparent := cparent r; cdata := cdata r ++ [(norm n, v)]; cfuncs := cfuncs r |} :: t
+  | r :: t, S k => r :: set_data t k n v
+  end.
+
+Definition evaluate (fuel : nat) (host : list ctxrec) (c : nat) (data : option val) (e : expr) : st * res val :=
+  let h := match data with Some d => set_data host c [] d | None => host end in
+  match eval fuel {| heap := h; log := [] |} c e with
+  | (s1, Ok v) => finalize fuel s1 v
+  | (s1, r) => (s1, r)
+  end.
+
 (* ---- correspondence ---- *)
 Fixpoint val_same (a b : val) {struct a} : bool :=
   match a, b with
